@@ -1,6 +1,7 @@
 import RV.C05.Lemmas
 import RV.C05.StrLemmas
 import RV.C05.IriLemmas
+import RV.C05.Tables
 /-
   C05 — property statements (each first as `def Statement_… : Prop`, at full strength) and theorems.
 
@@ -67,6 +68,18 @@ def ntRowNoCr (lex : Str) : Str :=
     "\" .".toList
 
 theorem unescaped_cr_breaks_the_line : NT.parseDoc (ntRowNoCr ['a', '\r', 'b'] ++ ['\n']) = none := by
+  decide
+
+/-! ### tables regenerated from rdflib's source on every run (RV/C05/Tables.lean) -/
+
+/-- `rdflib.compat._string_escape_map` (used by the N-Triples and Turtle escape decoders) is exactly the
+    grammar's ECHAR table [153s] -/
+def Statement_escape_table_is_echar : Prop :=
+  (∀ p ∈ Tables.stringEscapeMap, echar p.1 = some p.2) ∧
+  (∀ c ∈ ['t', 'b', 'n', 'r', 'f', '"', '\'', '\\'], (Tables.stringEscapeMap.lookup c) = echar c)
+
+theorem escape_table_is_echar : Statement_escape_table_is_echar := by
+  unfold Statement_escape_table_is_echar
   decide
 
 /-! ### the randomised writer's string forms -/
